@@ -480,15 +480,16 @@ func (v *Validator) lookupEntityAttr(lub entityLUB, attr types.String) *attribut
 	return result
 }
 
-// entityHasTags returns true if all entities in the LUB have tags defined.
+// entityHasTags returns true if some entity type in the LUB has tags defined: only when none has can hasTag be
+// typed False (an entity of a type with tags may well have the tag).
 func (v *Validator) entityHasTags(lub entityLUB) bool {
 	for _, et := range lub.elements {
 		entity := v.schema.Entities[et]
-		if entity.Tags == nil {
-			return false
+		if entity.Tags != nil {
+			return true
 		}
 	}
-	return true
+	return false
 }
 
 // entityTagType returns the LUB of the tag types for all entities in the LUB.
